@@ -34,6 +34,8 @@ type Inner struct {
 type Doc struct {
 	XMLName xml.Name          `json:"-" xml:"doc" yaml:"-"`
 	Attr    string            `json:"attr" xml:"attr,attr" yaml:"attr"`
+	Link    string            `json:"link" xml:"link" yaml:"link"` // names an HTML parser would treat specially are ordinary names here
+	Meta    string            `json:"meta" xml:"meta" yaml:"meta"`
 	S       string            `json:"s" xml:"s" yaml:"s"`
 	B       bool              `json:"b" xml:"b" yaml:"b"`
 	I       int64             `json:"i" xml:"i" yaml:"i"`
@@ -198,7 +200,7 @@ func (g *gen) inner() Inner {
 }
 
 func (g *gen) doc() Doc {
-	d := Doc{Attr: g.str(), S: g.str(), B: g.r.n(2) == 1, I: g.i64()}
+	d := Doc{Attr: g.str(), S: g.str(), B: g.r.n(2) == 1, I: g.i64(), Link: "l-" + plainStrings[g.r.n(len(plainStrings))], Meta: "m-" + plainStrings[g.r.n(len(plainStrings))]}
 	if g.class != vcSmall {
 		d.U = uint64Pool[g.r.n(len(uint64Pool))]
 		d.F = floatPool[g.r.n(len(floatPool))]
